@@ -334,6 +334,21 @@ fn open_fds(spec: &Spec, m: &mut Manifest) {
                     let c = CString::new("/dev/null").unwrap();
                     m.fds.push(libc::open(c.as_ptr(), libc::O_RDWR));
                 }
+                FdSpec::DeadProcDir => {
+                    let pid = libc::fork();
+                    if pid == 0 {
+                        loop {
+                            libc::pause();
+                        }
+                    } else if pid > 0 {
+                        let c = CString::new(format!("/proc/{pid}/fd")).unwrap();
+                        let fd = libc::open(c.as_ptr(), libc::O_RDONLY | libc::O_DIRECTORY);
+                        libc::kill(pid, libc::SIGKILL);
+                        let mut st = 0;
+                        libc::waitpid(pid, &mut st, 0);
+                        m.fds.push(fd);
+                    }
+                }
             }
         }
     }
